@@ -55,12 +55,80 @@ theorem comment_tokens : tokenize docComment = [.start key [], .text [97], .comm
 theorem comment_joined :
     strOf (decodeDoc X0 (.named key) .str (deEvents (tokenize docComment))) = some [97, 98] := by decide
 
-/-- F-xml-3 (`xml-xsi-type`): without the listed exception the deserialiser table of `Grantee` is not the Smithy
-shape (`xsi:type` is an `xmlAttribute` there) -/
-theorem xsi_type_differs :
-    (match deDef .Grantee, smithyDef .Grantee with
-     | some d, some e => defEqv d e
-     | _, _ => true) = false := by decide +kernel
+/-! F-xml-3 (`xml-xsi-type`, FIXED by 1dc4ea8): `Grantee$Type` is the attribute `xsi:type` of the `Grantee` start tag
+(Smithy `xmlAttribute`), and the members that hold a `Grantee` declare `xmlns:xsi`. Until the repair s3s read and wrote
+it as a child element `<xsi:type>`. -/
+
+/-- the harness round trip of a type that is only ever nested, in the model: decode the document under the type's own
+name at the deserialiser schema extracted from the code, re-encode at the extracted serialiser schema, write -/
+def roundtrip (t : Ty) (doc : Bytes) : Option (Except DeErr Bytes) :=
+  match deSchema t, serSchema t with
+  | some sd, some ss =>
+    some (match decodeDoc X0 (.named t.selfTag) sd (deEvents (tokenize doc)) with
+      | .ok v => .ok (write (encodeDoc (.named t.selfTag none) ss v))
+      | .error e => .error e)
+  | _, _ => none
+
+def isOkBytes (r : Option (Except DeErr Bytes)) (b : Bytes) : Bool :=
+  match r with
+  | some (.ok x) => x == b
+  | _ => false
+
+def isErr (r : Option (Except DeErr Bytes)) (e : DeErr) : Bool :=
+  match r with
+  | some (.error x) => x == e
+  | _ => false
+
+/-- the witness `w-xsi-sdk`, what an AWS SDK writes:
+`<Grantee xmlns:xsi="http://www.w3.org/2001/XMLSchema-instance" xsi:type="CanonicalUser"><ID>abc</ID></Grantee>` -/
+def docXsiSdk : Bytes :=
+  [60, 71, 114, 97, 110, 116, 101, 101, 32, 120, 109, 108, 110, 115, 58, 120, 115, 105, 61, 34, 104, 116, 116, 112, 58, 47, 47, 119, 119, 119, 46, 119, 51, 46, 111, 114, 103, 47, 50, 48, 48, 49, 47, 88, 77, 76, 83, 99, 104, 101, 109, 97, 45, 105, 110, 115, 116, 97, 110, 99, 101, 34, 32, 120, 115, 105, 58, 116, 121, 112, 101, 61, 34, 67, 97, 110, 111, 110, 105, 99, 97, 108, 85, 115, 101, 114, 34, 62, 60, 73, 68, 62, 97, 98, 99, 60, 47, 73, 68, 62, 60, 47, 71, 114, 97, 110, 116, 101, 101, 62]
+
+/-- the witness `w-xsi-s3s`, what s3s wrote until the repair:
+`<Grantee><ID>abc</ID><xsi:type>CanonicalUser</xsi:type></Grantee>` -/
+def docXsiChild : Bytes :=
+  [60, 71, 114, 97, 110, 116, 101, 101, 62, 60, 73, 68, 62, 97, 98, 99, 60, 47, 73, 68, 62, 60, 120, 115, 105, 58, 116, 121, 112, 101, 62, 67, 97, 110, 111, 110, 105, 99, 97, 108, 85, 115, 101, 114, 60, 47, 120, 115, 105, 58, 116, 121, 112, 101, 62, 60, 47, 71, 114, 97, 110, 116, 101, 101, 62]
+
+/-- since the repair the tables of `Grantee` are the Smithy shape itself, no difference listed (before: `xsi:type`
+was a child element in both tables) … -/
+theorem xsi_type_is_smithy :
+    (match deDef .Grantee, serDef .Grantee, smithyDef .Grantee with
+     | some d, some s, some e => defEqv d e && defEqv s e
+     | _, _, _ => false) = true := by decide +kernel
+
+/-- … the document of an SDK is accepted, and written back byte for byte: attribute and namespace declaration
+(before: refused with `MissingField`) … -/
+theorem xsi_sdk_document_accepted : isOkBytes (roundtrip .Grantee docXsiSdk) docXsiSdk = true := by decide +kernel
+
+/-- … the independent reader takes the same document for a `Grantee` of the Smithy model … -/
+theorem xsi_sdk_document_fits_smithy :
+    (match XmlSpec.parse docXsiSdk with
+     | .ok node =>
+       (XmlSpec.specValue { ts := fun _ _ => none } XmlSpec.judgeDef smithyDepth (.named t_Grantee) .Grantee node).toBool
+     | _ => false) = true := by decide +kernel
+
+/-- … the child-element form is refused: `xsi:type` is no element of `Grantee` (before: the only form accepted) … -/
+theorem xsi_child_element_refused : isErr (roundtrip .Grantee docXsiChild) .unexpectedTagName = true := by decide +kernel
+
+/-- … the attribute is required: `<Grantee><ID>a</ID></Grantee>` (the witness `w-missing`) … -/
+theorem xsi_attribute_required :
+    isErr (roundtrip .Grantee [60, 71, 114, 97, 110, 116, 101, 101, 62, 60, 73, 68, 62, 97, 60, 47, 73, 68, 62, 60, 47, 71, 114, 97, 110, 116, 101, 101, 62]) .missingField = true := by
+  decide +kernel
+
+/-- … the attribute is found wherever it stands, with either quote and white space around `=`, its value is
+normalised (XML 1.0 §3.3.3: a literal tab and a literal CR LF are one space each, `&#10;` stays a LF) and written
+back so that it survives (`&#10;`, `&quot;`):
+`<Grantee xsi:type = 'a TAB b CR LF c&#10;d&quot;' >` comes back as `xsi:type="a b c&#10;d&quot;"` … -/
+theorem xsi_attribute_value_normalised :
+    isOkBytes (roundtrip .Grantee
+      [60, 71, 114, 97, 110, 116, 101, 101, 32, 120, 115, 105, 58, 116, 121, 112, 101, 32, 61, 32, 39, 97, 9, 98, 13, 10, 99, 38, 35, 49, 48, 59, 100, 38, 113, 117, 111, 116, 59, 39, 32, 62, 60, 73, 68, 62, 97, 98, 99, 60, 47, 73, 68, 62, 60, 47, 71, 114, 97, 110, 116, 101, 101, 62])
+      [60, 71, 114, 97, 110, 116, 101, 101, 32, 120, 109, 108, 110, 115, 58, 120, 115, 105, 61, 34, 104, 116, 116, 112, 58, 47, 47, 119, 119, 119, 46, 119, 51, 46, 111, 114, 103, 47, 50, 48, 48, 49, 47, 88, 77, 76, 83, 99, 104, 101, 109, 97, 45, 105, 110, 115, 116, 97, 110, 99, 101, 34, 32, 120, 115, 105, 58, 116, 121, 112, 101, 61, 34, 97, 32, 98, 32, 99, 38, 35, 49, 48, 59, 100, 38, 113, 117, 111, 116, 59, 34, 62, 60, 73, 68, 62, 97, 98, 99, 60, 47, 73, 68, 62, 60, 47, 71, 114, 97, 110, 116, 101, 101, 62] = true := by
+  decide +kernel
+
+/-- … and malformed attributes in front of it are an error of the document: `<Grantee a xsi:type="Group">` -/
+theorem xsi_malformed_attributes_refused :
+    isErr (roundtrip .Grantee [60, 71, 114, 97, 110, 116, 101, 101, 32, 97, 32, 120, 115, 105, 58, 116, 121, 112, 101, 61, 34, 71, 114, 111, 117, 112, 34, 62, 60, 73, 68, 62, 97, 98, 99, 60, 47, 73, 68, 62, 60, 47, 71, 114, 97, 110, 116, 101, 101, 62]) .invalidXml = true := by
+  decide +kernel
 
 /-- F-xml-4 (`xml-cr-not-escaped`, FIXED by 7fbc5bc): quick-xml's `escape` alone leaves a CR literal … -/
 theorem cr_escape_raw : escape [97, 13, 98] = [97, 13, 98] := by decide
